@@ -106,6 +106,33 @@ def sc_timeout(mp):
         pool.terminate()
 
 
+class _TwoArgError(Exception):
+    """pickles, cannot be un-pickled (constructor signature differs from the args it passes up)"""
+
+    def __init__(self, a, b):
+        super().__init__("%s %s" % (a, b))
+
+
+def _raise_two_arg(x):
+    raise _TwoArgError("a", "b")
+
+
+def sc_unpicklable_on_load(mp):
+    # the parent's result handler dies un-pickling the exception: the result never arrives
+    ctx = mp.get_context("fork")
+    pool = ctx.Pool(processes=2, maxtasksperchild=1)
+    try:
+        pool.map_async(_raise_two_arg, range(2), chunksize=1).get(timeout=3)
+        outcome = "returned"
+    except BaseException as e:      # noqa: BLE001
+        outcome = "get raised " + type(e).__name__
+    try:
+        pool.terminate()            # (the real pool asserts that its result handler is alive here)
+    except BaseException:           # noqa: BLE001
+        pass
+    return outcome
+
+
 def sc_empty(mp):
     ctx = mp.get_context("fork")
     pool = ctx.Pool(processes=2)
@@ -115,7 +142,7 @@ def sc_empty(mp):
     return r
 
 
-SCENARIOS = (sc_map, sc_map_chunks, sc_exception_first_wins, sc_barrier, sc_barrier_abort, sc_timeout, sc_empty)
+SCENARIOS = (sc_map, sc_map_chunks, sc_exception_first_wins, sc_barrier, sc_barrier_abort, sc_timeout, sc_unpicklable_on_load, sc_empty)
 
 
 def _outcome(fn, mp):
@@ -146,8 +173,12 @@ def run_sim(fn, seed=0):
 def compare(seeds=6, verbose=False):
     """-> (number of scenarios, list of mismatch descriptions)"""
     bad = []
-    for fn in SCENARIOS:
-        real = _outcome(fn, multiprocessing)
+    quiet, threading.excepthook = threading.excepthook, (lambda args: None)   # the real pool's dying handler thread is expected
+    try:
+        reals = [(fn, _outcome(fn, multiprocessing)) for fn in SCENARIOS]
+    finally:
+        threading.excepthook = quiet
+    for fn, real in reals:
         sims = set(repr(run_sim(fn, seed)) for seed in range(seeds))
         if sims != {repr(real)}:
             bad.append("%s: real %r, simulated %s" % (fn.__name__, real, sorted(sims)))
